@@ -68,7 +68,7 @@ class CaseTimeout(BaseException):
     """raised by the per-case alarm; BaseException so pyparsing's own handlers cannot swallow it"""
 
 
-def with_alarm(seconds, fn, *a, **kw):
+def _with_alarm_once(seconds, fn, *a, **kw):
     """run fn under a per-case time limit.  The limit is on the *CPU time of this process* (ITIMER_PROF), so a busy
     machine (16 checks side by side) cannot turn a slow case into a "hang"; a wall-clock backstop of 20x the limit
     catches a case that sleeps instead of spinning."""
@@ -90,13 +90,18 @@ def with_alarm(seconds, fn, *a, **kw):
         signal.signal(signal.SIGALRM, old_r)
 
 
-def with_alarm_retry(seconds, fn, *a, **kw):
-    """with_alarm, but slow is not the same as stuck: a call that exceeds the limit is tried once more with a limit ten
-    times as generous (fn must be repeatable) before CaseTimeout is raised"""
+def with_alarm(seconds, fn, *a, **kw):
+    """run fn under a per-case CPU-time limit (see _with_alarm_once).  Slow is not the same as stuck: a call that exceeds
+    the limit is tried once more with a limit ten times as generous before CaseTimeout is raised, so that a case is
+    recorded as a hang only when it really does not come back (fn should be repeatable; a non-repeatable fn can only
+    be affected in a case that would otherwise have been reported as a hang)."""
     try:
-        return with_alarm(seconds, fn, *a, **kw)
+        return _with_alarm_once(seconds, fn, *a, **kw)
     except CaseTimeout:
-        return with_alarm(seconds * 10, fn, *a, **kw)
+        return _with_alarm_once(seconds * 10, fn, *a, **kw)
+
+
+with_alarm_retry = with_alarm
 
 
 # --------------------------------------------------------------------------------------------
